@@ -81,6 +81,8 @@ class MementoFunction(MementoFunctionBase):
     """
 
     _global_fn_generation = 0  # type: int
+    _last_definition_generation = 0  # type: int
+    """Generation as of the most recent definition (registration) of a function"""
     """
     Global generation number, used as an optimization to help prevent unnecessary version
     hash computation. This number is incremented every time a new function is defined, which
@@ -151,6 +153,8 @@ class MementoFunction(MementoFunctionBase):
 
     explicit_version = None  # type: Optional[str]
     _calculated_version = None  # type: Optional[str]
+    _calculated_as_of_generation = -1  # type: int
+    """Generation at which `_calculated_version` was last computed or confirmed"""
 
     def version(self) -> str:
         """Version of this function, usually computed using the code hash and dependencies"""
@@ -322,6 +326,9 @@ class MementoFunction(MementoFunctionBase):
                     self.qualified_name_without_version
                 )
             )
+            MementoFunction._last_definition_generation = (
+                MementoFunction._global_fn_generation
+            )
             Environment.register_function(cluster_name, self)
 
     def clone_with(
@@ -416,8 +423,14 @@ class MementoFunction(MementoFunctionBase):
                 self._update_fn_reference(self.explicit_version)
             return
 
-        # Do not recompute version if the cluster is locked
-        if self._calculated_version is not None:
+        # Do not recompute version if the cluster is locked. What is frozen is the version as of
+        # the last function definition: one that was computed earlier (while this function was
+        # being registered, say) may lack the functions that were defined after it.
+        if (
+            self._calculated_version is not None
+            and self._calculated_as_of_generation
+            >= MementoFunction._last_definition_generation
+        ):
             cluster = Environment.get().get_cluster(cluster_name=self.cluster_name)
             if cluster is not None and cluster.locked:
                 return
@@ -444,6 +457,7 @@ class MementoFunction(MementoFunctionBase):
                         )
                     )
                 elif self._calculated_version is not None:
+                    self._calculated_as_of_generation = entry.as_of_generation
                     return
                 # Otherwise this instance (e.g. an unregistered wrapper of a registered
                 # function) has not evaluated its hash rules yet, so it cannot vouch that
@@ -467,6 +481,8 @@ class MementoFunction(MementoFunctionBase):
                         version,
                     )
                 )
+
+        self._calculated_as_of_generation = MementoFunction._global_fn_generation
 
         # Update the cache entry
         MementoFunction._global_fn_version_cache[
